@@ -12,12 +12,18 @@ RULE = ('exact two-arm elbows: arm lengths 3..64 segments (quick) / ..1500 (thor
 ASSUMPTIONS = ['coordinates are exactly representable (slopes are multiples of 1/8, integer spacings, dyadic offsets), so the float criteria are exact or within a few ulp']
 
 
-def elbow(rng, amax):
+def elbow(rng, amax, lopsided=False):
     a, b = rng.randrange(3, amax + 1), rng.randrange(3, amax + 1)
     if rng.random() < 0.25:
         a = rng.choice([3, 4])
     if rng.random() < 0.25:
         b = rng.choice([3, 4])
+    if lopsided:
+        # a LONG arm against a shortest one: the short arm contributes ~1 % of the samples (anything that trims, sub-samples or
+        # thins out long inputs loses it)
+        a, b = rng.choice([3, 4, 5]), rng.randrange(100, 520)
+        if rng.random() < 0.5:
+            a, b = b, a
     gaps = [rng.choice([1, 2, 3, 4]) for _ in range(a + b)] if rng.random() < 0.7 else [rng.choice([1, 2, 3, 4])] * (a + b)
     # offsets are any exactly representable numbers: also far larger than the elbow's own extent (2^22, 2^30)
     x = [float(rng.choice([0, 1, 5, 1024, 0, 1, 5, 1024, 2 ** 22, 2 ** 30]))]
@@ -114,11 +120,15 @@ def run(ctx):
     for _ in range(60 if quick else 1500):
         pts, fam = gen.dyadic_curve(rng, rng.randrange(3, 40), scale_exp=0)
         gradients(ctx, pts, fam)
-    for _ in range(260 if quick else 5000):
-        pts, c, sl = elbow(rng, 64 if quick else (1500 if rng.random() < 0.02 else 200))
+    nl = 10 if quick else 150
+    for it in range((260 if quick else 5000) + nl):
+        if it < nl:
+            pts, c, sl = elbow(rng, 64, lopsided=True)
+        else:
+            pts, c, sl = elbow(rng, 64 if quick else (1500 if rng.random() < 0.02 else 200))
         s1, s2 = sl
         mono = (s1 >= 0 and s2 >= 0) or (s1 <= 0 and s2 <= 0)
-        fam = ('convex' if s2 > s1 else 'concave') + ('-V' if s1 * s2 < 0 else ('-rising' if s1 + s2 > 0 else '-falling'))
+        fam = ('convex' if s2 > s1 else 'concave') + ('-V' if s1 * s2 < 0 else ('-rising' if s1 + s2 > 0 else '-falling')) + ('@lopsided-long' if it < nl else '')
         one(ctx, pts, c, sl, 'curvature', {}, fam)
         one(ctx, pts, c, sl, 'menger', {}, fam)
         one(ctx, pts, c, sl, 'dfdt', {}, fam)
